@@ -576,7 +576,7 @@ def run(ctx):
     if ctx.tier == 'quick':
         process(ctx, 14, 8, 4, 15)
     else:
-        process(ctx, 150, 60, 40, 60)
+        process(ctx, 300, 120, 60, 150)
 
 
 def search(ctx):
